@@ -1035,6 +1035,37 @@ def _check_line_sequence(ctx, wh: FuncInfo, res: RuleResult):
                     lo = try_const(ctx, f, x.slice.lower)
                     if isinstance(lo, int) and lo >= 4 and try_const(ctx, f, x.slice.upper) is None:
                         r_atoms = lo
+    if r_counts is None:
+        # the counts row reached through a property / helper:  row = self.lines[K] ... row[2] != "COUNTS"
+        for q in ctx.cg.closure([v3.fq]):
+            f = ctx.cg.funcs[q]
+            for x in own_walk(f.node):
+                if isinstance(x, ast.Compare) and isinstance(x.comparators[0], ast.Constant) and x.comparators[0].value == "COUNTS" and isinstance(x.left, ast.Subscript):
+                    row = x.left.value
+                    for _ in range(3):
+                        if isinstance(row, ast.Name):
+                            row = single_def(f.node, row.id) or row
+                        if isinstance(row, ast.Attribute) and isinstance(row.value, ast.Name) and row.value.id == "self" and f.cls is not None:
+                            m_ = ctx.repo.mro_method(f.cls, row.attr)
+                            rets_ = [r for r in own_walk(m_.node) if isinstance(r, ast.Return)] if m_ is not None else []
+                            if len(rets_) == 1 and rets_[0].value is not None:
+                                row, f = rets_[0].value, m_
+                    if isinstance(row, ast.Subscript):
+                        r_counts = try_const(ctx, f, row.slice)
+    if r_atoms is None:
+        for q in ctx.cg.closure([v3.fq]):
+            f = ctx.cg.funcs[q]
+            cands = []
+            if f.cls is not None:
+                for st in f.cls.node.body:
+                    tg = st.targets[0] if isinstance(st, ast.Assign) and len(st.targets) == 1 else (st.target if isinstance(st, ast.AnnAssign) else None)
+                    if isinstance(tg, ast.Name) and "atom" in tg.id.lower() and "offset" in tg.id.lower() and getattr(st, "value", None) is not None:
+                        cands.append(try_const(ctx, f, st.value))
+            for c in cands:
+                if isinstance(c, int):
+                    r_atoms = c
+    if r_counts is None or r_atoms is None:
+        raise AnalysisError(f"R-FIELDS: cannot find at which line the V3000 reader expects the counts line ({r_counts}) / the atom block ({r_atoms})")
     ok = f1 and r_counts is not None and n_counts == r_counts
     res.inst(w.fq, f"COUNTS is written as line {n_counts} (0-based); reader expects it at {r_counts}", "ok" if ok else "fail")
     if not ok:
